@@ -113,7 +113,8 @@ def alphabet(full):
     return ops
 
 
-def random_history(rng, maxlen):
+def random_history_parts(rng, maxlen):
+    """(start, ops, rows, cols): a random history and the size the specification ends with"""
     r, c = rng.randrange(1, 5), rng.randrange(1, 5)
     start = start_case(r, c, rng.randrange(6))
     f = Fresh()
@@ -183,6 +184,11 @@ def random_history(rng, maxlen):
             ops.append([11, rng.randrange(-9, 10)])
         else:
             ops.append([12, rng.randrange(-9, 10)])
+    return start, ops, r, c
+
+
+def random_history(rng, maxlen):
+    start, ops, _, _ = random_history_parts(rng, maxlen)
     return sx([11, 1, start, ops])
 
 
